@@ -253,6 +253,12 @@ _zif_troffs(const struct zif_s z[static 1U], int n)
 {
 /* no bound check! */
 	uint8_t idx = _zif_type(z, n);
+#if defined DATEUTILS_VERIF
+	/* only real zone files have a type table of NTY entries */
+	if (z->nty || z->ntr) {
+		dateutils_verif_probe("zif_type_idx", idx, z->nty, n, z->ntr);
+	}
+#endif	/* DATEUTILS_VERIF */
 	return z->ofs[idx];
 }
 
@@ -263,6 +269,11 @@ zif_troffs(zif_t z, int n)
 {
 /* no bound check! */
 	uint8_t idx = _zif_type(z, n);
+#if defined DATEUTILS_VERIF
+	if (z->nty || z->ntr) {
+		dateutils_verif_probe("zif_type_idx", idx, z->nty, n, z->ntr);
+	}
+#endif	/* DATEUTILS_VERIF */
 	return z->ofs[idx];
 }
 
@@ -679,6 +690,12 @@ __offs(struct zif_s z[static 1U], stamp_t t)
 		min = 0;
 		max = 0;
 	}
+#if defined DATEUTILS_VERIF
+	z->cache = __find_zrng(z, t, min, max);
+	/* the range just cached must contain the instant just answered */
+	dateutils_verif_probe("zif_offs_ret", t, z->cache.prev, z->cache.next, z->cache.trno);
+	return z->cache.offs;
+#endif	/* DATEUTILS_VERIF */
 	return (z->cache = __find_zrng(z, t, min, max)).offs;
 }
 
